@@ -64,7 +64,8 @@ def plan_tag(n, labels, bits, comps, has_td, tds, vols, name_k, clock):
         if t:
             return t
         # the same planner plans a second observation from the same workflow file; both plans mirror the workflow
-        env.run(until=env.now + 3)
+        if PIN.get('later_second_plan'):
+            env.run(until=env.now + 3)           # otherwise both plans are made at the same clock value
         try:
             plan2 = planner.run(Observation('zz', 0, 2, 1, wf_file(), 3), buf, 2)
             gids = [t.graph_id for t in plan2.tasks]
@@ -224,6 +225,7 @@ def shards(tier, prop):
         for n, perm, base, clock in cfgs:
             out.append({'fn': 'plan_ok', 'pin': {'n': n, 'perm': perm, 'base': base, 'clock': clock}, 'cond_timeout': 150})
         out.append({'fn': 'plan_ok', 'pin': {'n': 3, 'perm': [0, 1, 2, 3], 'base': 0, 'clock': 0, 'rev_edges': True}, 'cond_timeout': 150})
+        out.append({'fn': 'plan_ok', 'pin': {'n': 2, 'perm': [0, 1, 2, 3], 'base': 0, 'clock': 7, 'later_second_plan': True}, 'cond_timeout': 150})
     else:
         for n in (1, 2, 3, 4):
             for perm in itertools.permutations(range(n)):
